@@ -72,6 +72,35 @@ def composed_regex(ctx, part: str, pats: T.Dict[str, str], comps: T.Dict[str, st
     return pats[part]
 
 
+def _tag_values_by_evaluation(ctx, fv, tag_keys: T.Sequence[str]) -> T.Optional[T.Dict[str, T.Set[str]]]:
+    """What format_version puts under the tag-dependent names, read off its result for the pattern `{k1}|{k2}|...`, once per
+    release tag.  None when the body is outside what the evaluator handles."""
+    from sa.model import Abstract, CannotFold, EvalError
+    prog = ctx.prog
+    names = prog.klass("version.V1VersionInfo").fields
+
+    class Rec(Abstract):
+        def __init__(self, d: T.Dict[str, T.Any]):
+            self.__dict__.update(d)
+            self.__dict__["_d"] = dict(d)
+
+        def _asdict(self) -> T.Dict[str, T.Any]:
+            return dict(self._d)
+    base = {n_: None for n_ in names}
+    base.update({"year": 2021, "quarter": 1, "month": 3, "dom": 14, "doy": 73, "iso_week": 10, "us_week": 11, "major": 1, "minor": 22, "patch": 3, "bid": "1001"})
+    out: T.Dict[str, T.Set[str]] = {k: set() for k in tag_keys}
+    try:
+        for tag in LEGACY_TAGS:
+            got, _ys = prog.run_body(fv, {fv.params[0]: Rec(dict(base, tag=tag)), fv.params[1]: "|".join("{" + k + "}" for k in tag_keys), "__strict__": True})
+            if not isinstance(got, str) or got.count("|") != len(tag_keys) - 1:
+                return None
+            for k, v in zip(tag_keys, got.split("|")):
+                out[k].add(v)
+    except (CannotFold, EvalError, TypeError, AttributeError, KeyError, ValueError, IndexError):
+        return None
+    return out
+
+
 def kwargs_model(ctx, fv) -> T.Dict[str, T.Callable[[], rl.R]]:
     """Images of the names format_version makes available to str.format, from its assignments."""
     prog = ctx.prog
@@ -136,7 +165,14 @@ def kwargs_model(ctx, fv) -> T.Dict[str, T.Callable[[], rl.R]]:
         return any(isinstance(x, ast.Subscript) and unparse(x.value) == kwvar and const_str(x.slice) in tag_keys and isinstance(x.ctx, ast.Store) for x in ast.walk(st))
     block = [st for st in fv.node.body if _touches(st)]
     by_prop: T.Dict[str, T.Set[str]] = {k: set() for k in tag_keys}
+    evaluated = _tag_values_by_evaluation(ctx, fv, tag_keys)
+    if evaluated is not None:
+        for k in tag_keys:
+            model[k] = ("strs", sorted(evaluated[k]))
+        block = []
     try:
+        if evaluated is not None:
+            raise StopIteration
         for tag in LEGACY_TAGS:
             env_: T.Dict[str, T.Any] = {tagvar: tag, kwvar: {}}
             ctx.prog._propagate(fv.module, block, env_, fv.fq)
@@ -145,6 +181,8 @@ def kwargs_model(ctx, fv) -> T.Dict[str, T.Callable[[], rl.R]]:
                 by_prop[k].add(env_[kwvar][k])
         for k in tag_keys:
             model[k] = ("strs", sorted(by_prop[k]))
+    except StopIteration:
+        pass
     except AnalysisError:
         for k in tag_keys:
             model[k] = ("strs", strs_of(assigns[k]))
@@ -170,7 +208,7 @@ def kwargs_model(ctx, fv) -> T.Dict[str, T.Callable[[], rl.R]]:
             model["yy"] = ("strs", sorted({str(v_) for v_ in vals_}))
         else:
             raise AnalysisError(f"C20: kwargs['yy'] expression has mixed types: `{yy}`")
-    ctx.require("yyyy" in assigns and unparse(assigns["yyyy"][0]) == "year", "kwargs['yyyy'] shape changed")
+    ctx.require("yyyy" in assigns and unparse(assigns["yyyy"][0]) in ("year", f"{fv.params[0]}.year"), "kwargs['yyyy'] shape changed")
     model["yyyy"] = ("ints", ("ints", 2000, 2099))
     ctx.require("BID" in assigns and unparse(assigns["BID"][0]).startswith("int("), "kwargs['BID'] shape changed")
     model["BID"] = ("canon", ("digits", 4, True))
